@@ -2,7 +2,9 @@ package main
 
 import (
 	"encoding/hex"
+	"encoding/json"
 	"fmt"
+	"sort"
 	"strings"
 
 	"github.com/ctessum/geom"
@@ -13,7 +15,7 @@ import (
 // Arbitrary Go values for Geometry.Coordinates, in prefix token form:
 //
 //	n | f <bits> | a <k> v.. | s <hex or -> | t | u | i <int> | o <k> (<keyhex or -> v)..
-//	F1 <k> <bits>.. | F2 <k> (<k> <bits>..).. | PT <bits> <bits>
+//	F1 <k> <bits>.. | F2 <k> (<k> <bits>..).. | PT <bits> <bits> | jn <text hex or ->   (json.Number)
 func parseGoVal(p *vproto.Parser) interface{} {
 	switch tag := p.Next(); tag {
 	case "n":
@@ -63,6 +65,8 @@ func parseGoVal(p *vproto.Parser) interface{} {
 		return a
 	case "PT":
 		return geom.Point{X: p.F(), Y: p.F()}
+	case "jn":
+		return json.Number(hexStr(p.Next()))
 	default:
 		panic("harness: unknown goval tag " + tag)
 	}
@@ -179,5 +183,43 @@ func (v *jv) toks(b *strings.Builder) {
 		b.WriteString(" " + v.gonly)
 	default:
 		panic("jv.toks: raw literal")
+	}
+}
+
+// valToks renders what encoding/json produced (possibly with UseNumber) as goval tokens.
+func valToks(b *strings.Builder, v interface{}) {
+	switch t := v.(type) {
+	case nil:
+		b.WriteString(" n")
+	case float64:
+		b.WriteString(" f " + vproto.F2H(t))
+	case json.Number:
+		b.WriteString(" jn " + strTok(string(t)))
+	case string:
+		b.WriteString(" s " + strTok(t))
+	case bool:
+		if t {
+			b.WriteString(" t")
+		} else {
+			b.WriteString(" u")
+		}
+	case []interface{}:
+		fmt.Fprintf(b, " a %d", len(t))
+		for _, x := range t {
+			valToks(b, x)
+		}
+	case map[string]interface{}:
+		keys := make([]string, 0, len(t))
+		for k := range t {
+			keys = append(keys, k)
+		}
+		sort.Strings(keys)
+		fmt.Fprintf(b, " o %d", len(keys))
+		for _, k := range keys {
+			b.WriteString(" " + strTok(k))
+			valToks(b, t[k])
+		}
+	default:
+		panic(fmt.Sprintf("valToks: %T", v))
 	}
 }
